@@ -58,7 +58,9 @@ let dump_keys (ks : K.kst) =
   if !tagged then begin
     out " gen=";
     for i = 0 to 1023 do let g = ks.K.kgen (zi i) in if g <> BinNums.Z0 then out (Printf.sprintf "%d:%s," i (sz g)) done
-  end
+  end;
+  out " dt=";
+  for i = 0 to 1023 do let d = ks.K.kdtor (zi i) in if d <> BinNums.Z0 then out (Printf.sprintf "%d:%s," i (sz d)) done
 
 let read_op () =
   let o = next () in let a = zs (next ()) in
